@@ -9,6 +9,7 @@ import (
 	"fmt"
 	"regexp"
 	"sort"
+	"strings"
 
 	"github.com/ProtonMail/gluon/db"
 	"github.com/ProtonMail/gluon/imap"
@@ -18,8 +19,18 @@ var c8DeletedRe = regexp.MustCompile(`DELETED-[0-9a-fA-F-]{36}`)
 
 func c8Scrub(s string) string { return c8DeletedRe.ReplaceAllString(s, "DELETED-*") }
 
+var c8NumRe = regexp.MustCompile(`[0-9a-f]{12}|[0-9]+`)
+
 func (x *c8Exec) rbFail(tag, format string, args ...any) {
-	x.fail("readback", "read-back %s: %s", tag, fmt.Sprintf(format, args...))
+	msg := fmt.Sprintf(format, args...)
+	what := msg
+	if i := strings.Index(what, ":"); i >= 0 {
+		what = what[:i]
+	}
+	if len(what) > 80 {
+		what = what[:80]
+	}
+	x.fail("readback", c8NumRe.ReplaceAllString(what, "#"), "read-back %s: %s", tag, msg)
 }
 
 func (x *c8Exec) rbSet(tag, what string, want, got []string) bool {
